@@ -455,9 +455,12 @@ def sibling(rng, case, kind):
         c["z"] = np.arange(1.0, nz + 1.0)
         if case["analytic"]:
             ints = lambda a, lo, hi: np.full(nz, float(min(hi, max(lo, round(float(a[0]))))))
+            c["profiles"] = (ints(u, -2, 2), ints(v, -2, 2), np.full(nz, 3.0), np.full(nz, 1.0), np.full(nz, 2.0))
         else:
             ints = lambda a, lo, hi: np.clip(np.rint(np.asarray(a, dtype=float)), lo, hi)
-        c["profiles"] = (ints(u, -2, 2), ints(v, -2, 2), ints(2 * Kx, 1, 3), ints(2 * Ky, 1, 3), ints(2 * Kz, 1, 3))
+            ii = np.arange(nz)
+            # diffusivities 1, 2, 3 in turn: reciprocals and resistances are not whole numbers
+            c["profiles"] = (ints(u, -2, 2), ints(v, -2, 2), 1.0 + (ii + 1) % 3, 1.0 + (ii + 2) % 3, 2.0 + ii % 2)
         c["q0"] = np.rint(case["q0"] * 8.0)
         if not np.any(c["q0"]):
             c["q0"][0, 0] = 3.0
@@ -736,6 +739,8 @@ def correspond(ctx, cases, label, shard=6, jobs=14, timeout=900):
               and not (kd in ("domain-x", "domain-y") and cases[k]["analytic"])
               and not (kd in ("source-inplace", "interior-shrink") and cases[k]["footprint"])
               and not (kd == "threads" and cases[k]["analytic"])]
+        if kd == "int-dtype":
+            ok.sort(key=lambda k: (cases[k]["analytic"], cases[k]["footprint"]))  # prefer the numerical dispersion path
         done = False
         for k in ok:
             try:
